@@ -32,3 +32,6 @@ impl<K, V> BTreeMap<K, V> {
         ensures forall|k: K| #[trigger] final(self)@.contains_key(k) ==> (old(self)@.contains_key(k) && final(self)@[k] == old(self)@[k] && exists|kr: &K, v: &mut V| *kr == k && #[trigger] f.ensures((kr, v), true)),
                 forall|k: K| old(self)@.contains_key(k) && !(#[trigger] final(self)@.contains_key(k)) ==> exists|kr: &K, v: &mut V| *kr == k && #[trigger] f.ensures((kr, v), false) { unimplemented!() }
 }
+impl<K, V> BTreeMap<K, V> {
+    #[verifier::external_body] pub fn len(&self) -> (r: usize) ensures r == self@.dom().len() { unimplemented!() }
+}
